@@ -96,6 +96,12 @@ impl JobManager {
         reason = "push() guarantees the vector length is >= 1"
     )]
     pub fn add_as_current(&mut self, mut job: Job) -> &Job {
+        // The current job becomes the previous one; whatever was previous before no longer is.
+        for j in &mut self.jobs {
+            if matches!(j.annotation, JobAnnotation::Previous) {
+                j.annotation = JobAnnotation::None;
+            }
+        }
         for j in &mut self.jobs {
             if matches!(j.annotation, JobAnnotation::Current) {
                 j.annotation = JobAnnotation::Previous;
